@@ -5,6 +5,9 @@
      s:oid p:oid gs:oid:k:v:r gr:oid:k:r gf:oid:tag:r gc:oid:r q:oid:name d:oid l:oid:t z
      (  = unscoped SimplePipeline child   (! = child made by SimplePipeline::pipeline()
      (+ = scoped plain Pipeline child     (- = unscoped plain Pipeline child      ) = end of child
+     ( (+ (- may carry the suffix ~<how>: the child enters the real tree as a COPY of a built pipeline object
+       (1 copy constructor, 2 operator<<(Logger *, const Pipeline &), 3 copy of the still empty original, 4 copy assignment);
+       the tree is parsed into the tagged [bhandler] and evaluated as Gallina [forget_l] of it (the tag is forgotten)
    attribute VALUES (the v above and in message tokens) are typed: bare hex = QString, i~<int> = int, b~<0|1> = bool,
      f~<n> = the double n/2, y~<hex bytes, 2 digits each> = QByteArray
    message token: <type 0..4>:<text>:<n | f<fmt>>:<k.v,k.v,...>
@@ -72,17 +75,27 @@ let parse_leaf t =   (* one non-structural token *)
       | ["l"; o; t] -> leaf o (LLevel (mtype_of_int (int_of_string t)))
       | ["z"] -> HNull
       | _ -> failwith ("bad token " ^ t)
-let rec parse_list toks =   (* handlers, remaining tokens after the closing paren *)
+let split_how t =   (* "(+~2" -> ("(+", BCopyHelper) *)
+  match String.index_opt t '~' with
+  | Some i when t.[0] = '(' ->
+    (String.sub t 0 i, (match String.sub t (i+1) (String.length t - i - 1) with
+       | "1" -> BCopyCtor | "2" -> BCopyHelper | "3" -> BCopyEmpty | "4" -> BCopyAssign | _ -> failwith ("bad copy tag " ^ t)))
+  | _ -> (t, BFresh)
+let bleaf t = match parse_leaf t with HLeaf (o, l) -> BLeaf (o, l) | HNull -> BNull | HPipe _ -> failwith "leaf"
+let rec parse_blist toks =   (* tagged handlers, remaining tokens after the closing paren *)
   match toks with
   | [] -> ([], [])
   | ")" :: r -> ([], r)
   | t :: r ->
-    let (h, r') = match t with
-      | "(" | "(-" -> let (hs, r2) = parse_list r in (HPipe (false, hs), r2)
-      | "(+" -> let (hs, r2) = parse_list r in (HPipe (true, hs), r2)
-      | "(!" -> let (hs, r2) = parse_list r in (HPipe (!fluent_scoped, hs), r2)
-      | _ -> (parse_leaf t, r) in
-    let (hs, r'') = parse_list r' in (h :: hs, r'')
+    let (b, how) = split_how t in
+    let (h, r') = match b with
+      | "(" | "(-" -> let (hs, r2) = parse_blist r in (BPipe (how, false, hs), r2)
+      | "(+" -> let (hs, r2) = parse_blist r in (BPipe (how, true, hs), r2)
+      | "(!" -> if how <> BFresh then failwith "a pipeline() child is never a copy" else
+                let (hs, r2) = parse_blist r in (BPipe (BFresh, !fluent_scoped, hs), r2)
+      | _ -> (bleaf t, r) in
+    let (hs, r'') = parse_blist r' in (h :: hs, r'')
+let parse_list toks = let (bs, r) = parse_blist toks in (forget_l bs, r)
 let b01 b = if b then "1" else "0"
 let rec show_tree b hs = List.iter (fun h -> Buffer.add_char b ' '; match h with
   | HNull -> Buffer.add_string b "z"
@@ -108,9 +121,10 @@ let parse_msg tok = match String.split_on_char ':' tok with
   | _ -> failwith ("bad message " ^ tok)
 let show_val = function VStr s -> "s" ^ hex s | VInt z -> "i" ^ string_of_int (int_of_z z)
   | VBool b -> if b then "b1" else "b0" | VDbl z -> "f" ^ string_of_int (int_of_z z) | VBytes b -> "y" ^ hex2 b
-let pipe_of_tok = function
-  | "(" | "(-" -> HPipe (false, []) | "(+" -> HPipe (true, []) | "(!" -> HPipe (!fluent_scoped, [])
-  | t -> parse_leaf t
+let pipe_of_tok t = let (b, how) = split_how t in match b with
+  | "(" | "(-" -> forget (BPipe (how, false, [])) | "(+" -> forget (BPipe (how, true, []))
+  | "(!" -> if how <> BFresh then failwith "a pipeline() child is never a copy" else HPipe (!fluent_scoped, [])
+  | _ -> parse_leaf t
 let class_of_tok = function "A" -> CAttr | "F" -> CFilter | "M" -> CFmt | "S" -> CSink | "P" -> CPipe
   | t -> failwith ("bad class " ^ t)
 let parse_step tok =
